@@ -23,6 +23,9 @@ from zmon.util import nm
 
 _dir = None
 _manifest = []
+# importable built-in / extension types nobody else declares anything on
+BUILTINS = [('frozenset', ''), ('bytearray', ''), ('complex', ''), ('memoryview', ''), ('array.array', 'import array'),
+            ('collections.deque', 'import collections'), ('slice', ''), ('range', '')]
 SENT_ATTR = 'zmonSentinelAttr'
 SENT_DOC = 'zmonSentinelDoc'
 
@@ -50,6 +53,7 @@ def gen_source(rng, nif, ncls):
     shapes = {}
     post = []
     mirror = {}
+    builtin = None
     for c in range(ncls):
         k = min(len(classes), rng.choice([0, 0, 1, 1, 2]))
         bases = rng.sample(classes, k)
@@ -59,7 +63,7 @@ def gen_source(rng, nif, ncls):
             bases = bases[:1]
             mirror['K%d' % c] = type('M', tuple(mirror[b] for b in bases) or (object,), {})
         shape = rng.choice(['plain', 'decorated', 'decorated', 'only', 'only_after', 'first', 'narrow_then_extend',
-                            'provider', 'provider_decorated'])
+                            'provider', 'provider_decorated', 'legacy_attr', 'legacy_attr_single'])
         sel = rng.sample(ifs, rng.randint(1, min(3, len(ifs))))
         name = 'K%d' % c
         if shape in ('decorated', 'provider_decorated'):
@@ -70,7 +74,12 @@ def gen_source(rng, nif, ncls):
             lines.insert(len(lines) - (1 if shape == 'provider_decorated' else 0),
                          '@provider(%s)' % ', '.join(rng.sample(ifs, rng.randint(1, min(2, len(ifs))))))
         lines.append('class %s(%s):' % (name, ', '.join(bases) or 'object'))
-        lines.append('    pass')
+        if shape == 'legacy_attr':
+            lines.append('    __implemented__ = (%s,)' % ', '.join(sel))      # old-style declaration
+        elif shape == 'legacy_attr_single':
+            lines.append('    __implemented__ = %s' % sel[0])
+        else:
+            lines.append('    pass')
         lines.append('')
         if shape == 'only_after':
             post.append('classImplementsOnly(%s, %s)' % (name, ', '.join(sel)))
@@ -82,6 +91,9 @@ def gen_source(rng, nif, ncls):
         classes.append(name)
         shapes[name] = shape
     lines.extend(post)
+    # a built-in / extension type declared with an *only* form (its specification lives in a side table,
+    # the type object cannot carry attributes); one type per generated module, chosen by the caller
+    lines.append('BUILTIN_SHAPE = None')
     try:
         compile('\n'.join(lines), 'gen', 'exec')
     except SyntaxError:
@@ -111,6 +123,15 @@ def run_case(ctx, rng, job):
             return
         raise
     modname = 'zmonpk_%d_%s_%d_%d' % (os.getpid(), job['mode'], job['shard'], ctx.case)
+    bname = None
+    if rng.random() < 0.6:
+        bname, bimport = BUILTINS[(job['shard'] * 31 + ctx.case) % len(BUILTINS)]
+        how = rng.choice(['only', 'only', 'plain'])
+        src += '%s\n' % bimport
+        if how == 'only':
+            src += 'classImplementsOnly(%s, %s)\nBUILTIN_SHAPE = "only"\n' % (bname, ifs[0])
+        else:
+            src += 'classImplements(%s, %s)\nBUILTIN_SHAPE = "plain"\n' % (bname, ifs[0])
     with open(os.path.join(_dir, modname + '.py'), 'w') as f:
         f.write(src)
     importlib.invalidate_caches()
@@ -158,6 +179,18 @@ def run_case(ctx, rng, job):
                 ctx.violation('class-provides-not-equal', {'cls': cname})
             names_only(data, modname, ctx, 'class provides ' + cname)
             entries.append(('cprov', cname, p, data, flat(cp)))
+    if bname is not None:
+        import builtins
+        btype = eval(bname, {'array': __import__('array'), 'collections': __import__('collections'), **vars(builtins)})
+        spec = implementedBy(btype)
+        for p in protos:
+            u, data = rt(spec, p)
+            ctx.ev()
+            ctx.count('roundtrips[builtin-spec:%s]' % mod.BUILTIN_SHAPE)
+            if u is not spec:
+                ctx.violation('builtin-class-spec-not-identical', {'type': bname, 'shape': mod.BUILTIN_SHAPE, 'proto': p,
+                                                                   'unpickled': repr(u), 'original': repr(spec)})
+            names_only(data, modname, ctx, 'builtin spec ' + bname)
     # instances: direct, also, after noLongerProvides; declarations and carriers
     for n in range(rng.randint(2, 5)):
         cname = rng.choice(classes)
